@@ -1406,6 +1406,8 @@ func (s *Store) commitIDTxn() error {
 
 	err := s.idtxn.Commit()
 	if err != nil {
+		// Commit discards the transaction also when it fails: start a new one for the next identifier
+		s.idtxn = nil
 		return err
 	}
 	s.idtxn = nil
